@@ -535,6 +535,26 @@ func histRandom(c *core.Ctx, sb *sandbox, res *core.ShardResult, wl *core.WLog) 
 func histAmbient(c *core.Ctx, sb *sandbox, res *core.ShardResult, wl *core.WLog) {
 	wl.Block(1)
 	n := 0
+	// a user-defined task named clean is an executed task like any other, also under --force
+	if c.Shard == 0 {
+		shape := hshape{Name: "user-defined-clean-task", Tasks: []htask{{Name: "A", Lits: []string{"a.txt"}, NCmd: 1}, {Name: "clean", Lits: []string{"b.txt"}, Deps: []string{"A"}, NCmd: 1}}, Files: []string{"a.txt", "b.txt"}}
+		for _, force := range []bool{true, false} {
+			h := hcase{Shape: shape, Via: "binary"}
+			h.Ops = []hop{{Kind: "write", File: "a.txt", Value: "v1"}, {Kind: "write", File: "b.txt", Value: "v1"},
+				{Kind: "run", Tasks: []string{"clean"}, Clean: true}, {Kind: "run", Tasks: []string{"clean"}, Clean: true, Force: force},
+				{Kind: "write", File: "b.txt", Value: "v2"}, {Kind: "run", Tasks: []string{"clean"}, Clean: true}, {Kind: "run", Tasks: []string{"clean"}, Clean: true}}
+			vs, stats := execHistory(c, sb, h, c.Prop)
+			res.Evaluations += int64(stats.Runs)
+			res.Count("histories_through_a_user_defined_clean_task", 1)
+			res.Count("skips_observed", int64(stats.Skips))
+			res.Count("executions_observed", int64(stats.Reruns))
+			for _, v := range vs {
+				v.Key = h.key()
+				v.Case = core.JSON(h)
+				res.Violate(v)
+			}
+		}
+	}
 	for si, shape := range []hshape{histShapes[0], histShapes[2], histShapes[4]} {
 		for variant := 1; variant <= 3; variant++ {
 			for _, force := range []bool{true, false} {
